@@ -91,6 +91,9 @@ var programs = []program{
 	{"numeric-for", 0, func(p int) string {
 		return fmt.Sprintf("for i = 1, 1e9 do if i %% %d == 0 then emit(i) end end", 1+p%5)
 	}, false},
+	{"empty-for", 0, func(p int) string {
+		return []string{"for i = 1, 1e300 do end", "for i = 0, -1e300, -1 do end", "for i = 2, 1, 0 do end", "for i = 1, 1e300 do end emit('never')", "local n = 0\nfor i = 1, 3 do n = n + 1 end\nfor j = 1, 1e308, 1e-3 do end"}[p%5]
+	}, false},
 	{"goto-loop", 0, func(p int) string { return "local i = 0\n::top:: i = i + 1\nif i % 3 == 0 then emit(i) end\ngoto top" }, false},
 	{"repeat-nested", 0, func(p int) string {
 		return "local n = 0\nrepeat\n  for j = 1, 3 do n = n + j end\n  emit(n)\nuntil false"
@@ -128,6 +131,23 @@ var programs = []program{
 	{"terminating-mix", 1, func(p int) string {
 		return fmt.Sprintf("local t = {}\nfor i = 1, %d do t[#t + 1] = i * 2 emit(i) end\nlocal ok, e = pcall(function() error('E') end)\nemit(ok, #t)\nlocal co = coroutine.wrap(function(a) coroutine.yield(a + 1) return 9 end)\nemit(co(1), co())\nreturn #t", 5+p%30)
 	}, true},
+	{"terminating-coroutine-family", 1, func(p int) string {
+		// coroutines created by coroutines, used after their creator returned,
+		// failed or while it is suspended: an undone context changes nothing
+		return fmt.Sprintf(`local made = {}
+local function body(a) emit('inner', a) local b = coroutine.yield(a + 1) emit('inner-resumed', b) return b * 2 end
+local o1 = coroutine.create(function() made[1] = coroutine.create(body) made[2] = coroutine.wrap(body) return 1 end)
+local o2 = coroutine.create(function() made[3] = coroutine.create(body) error('Eouter') end)
+local o3 = coroutine.create(function() made[4] = coroutine.create(function(a) made[5] = coroutine.create(body) return a end) coroutine.yield(2) return 3 end)
+emit(coroutine.resume(o1)) emit(coroutine.resume(o2)) emit(coroutine.resume(o3))
+emit(coroutine.status(o1), coroutine.status(o2), coroutine.status(o3))
+emit(coroutine.resume(made[1], %d)) emit(coroutine.resume(made[1], 5)) emit(coroutine.status(made[1]))
+emit(pcall(made[2], 20)) emit(pcall(made[2], 6))
+emit(coroutine.resume(made[3], 30)) emit(coroutine.resume(made[3], 7))
+emit(coroutine.resume(made[4], 40)) emit(coroutine.resume(made[5], 50)) emit(coroutine.resume(made[5], 8))
+emit(coroutine.resume(o3)) emit(coroutine.status(o3))
+return 1`, 10+p%5)
+	}, true},
 	{"cancel-inside-coroutine", 1, func(p int) string {
 		return fmt.Sprintf("local co = coroutine.wrap(function()\n  local i = 0\n  while true do\n    i = i + 1\n    emit('co', i)\n    if i == %d then cancel() end\n    if i %% 3 == 0 then coroutine.yield(i) end\n  end\nend)\nwhile true do emit('main', co()) end", 1+p%9)
 	}, false},
@@ -135,6 +155,10 @@ var programs = []program{
 		return fmt.Sprintf("local co = coroutine.create(function()\n  local i = 0\n  while true do\n    pcall(function() while true do i = i + 1 emit('co', i) if i == %d then cancel() end end end)\n    emit('swallowed')\n  end\nend)\nwhile true do emit('main', coroutine.resume(co)) end", 2+p%7)
 	}, false},
 }
+
+// bareOK: programs that use nothing but the language and emit, so that they run
+// on a state created with SkipOpenLibs (whose first call is then the script)
+var bareOK = map[string]bool{"while-true": true, "numeric-for": true, "empty-for": true, "goto-loop": true, "repeat-nested": true, "deep-recursion": true, "tail-recursion": true}
 
 type runResult struct {
 	trace       []string
@@ -165,16 +189,16 @@ func runOnce(src string, k int, useCtx bool, opt ...string) *runResult {
 	mode, probe := "", false
 	for _, o := range opt {
 		switch o {
-		case "thread":
+		case "thread", "bare":
 			mode = o
 		case "probe":
 			probe = true
 		}
 	}
-	L := lua.NewState()
+	L := lua.NewState(lua.Options{SkipOpenLibs: mode == "bare"})
 	defer L.Close()
 	var probes []lua.LValue
-	if probe {
+	if probe && mode != "bare" {
 		for _, ps := range probeSrcs {
 			probes = append(probes, gl.MustLoad(L, ps)) // before the context is attached: no polls consumed
 		}
@@ -249,7 +273,7 @@ func runOnce(src string, k int, useCtx bool, opt ...string) *runResult {
 			res.ret = gl.Canon(L.Get(-1), gl.NewIDMap())
 		}
 	}
-	if probe && ctx != nil && ctx.Context.Err() != nil && o.GoPanic == nil && mode != "thread" {
+	if probe && ctx != nil && ctx.Context.Err() != nil && o.GoPanic == nil && mode == "" {
 		// the context is done: no fresh entry into Lua code may complete
 		for i, pf := range probes {
 			arg := lua.LValue(lua.LNumber(7))
@@ -335,6 +359,10 @@ func runProgram(c *fw.Ctx, pi int, p1 int, onlyK int, count bool, mode string) {
 	base := Case{Prog: pi, P1: p1, Kind: "poll", Src: src, Mode: mode}
 	K := c.Pick(1200, 6000)
 	kStep, kOff := 1, 0
+	if mode == "bare" {
+		// a state without libraries: the script is the very first call the state makes
+		kStep, kOff = 3, p1%3
+	}
 	if mode == "thread" {
 		// the same enumeration with the context on a thread state: every 4th poll, offset by the variant
 		kStep, kOff = 4, p1%4
@@ -502,6 +530,9 @@ func run(c *fw.Ctx) {
 			p1 := int(c.SubRand("p1", pi*100+v).Int31n(1000))
 			runProgram(c, pi, p1, 0, true, "")
 			runProgram(c, pi, p1, 0, true, "thread")
+			if bareOK[programs[pi].name] {
+				runProgram(c, pi, p1, 0, true, "bare")
+			}
 		}
 	}
 	// pools of states sharing one buffered channel and one context
